@@ -79,7 +79,7 @@ void run_once(const Plan &p, const string &dir, const Site *site, simfs::Counter
   sim::budget_reset();
   simfs::clear_faults();
   simfs::fired().clear();
-  DbOptions opt; opt.set(p.cfg, true);
+  DbOptions opt; opt.default_info_log = p.geti("default_log", 0) != 0; opt.set(p.cfg, true); // lcdb's own LOG / LOG.old, also subject to faults
   ldb_t *db = nullptr;
   int rc = ldb_open(dir.c_str(), &opt.o, &db);
   if (rc != LDB_OK) { violation("C12", "open_failed", "creating the database failed without any fault: %s", rcname(rc)); return; }
@@ -307,6 +307,7 @@ Plan gen_ioerr(uint64_t seed, const string &prop) {
   if (nburst) p.sc = random_sched(r, true);
   p.seti("max_sites", g_thorough ? 400 : g_light ? 14 : nops <= 12 ? 60 : 36);
   p.seti("noise", r.chance(0.4));
+  p.seti("default_log", r.chance(0.25));
   p.seti("create_faults", r.chance(0.35) ? (g_thorough ? 40 : 8) : 0);
   return p;
 }
@@ -326,7 +327,7 @@ void exec_ioerr(const Plan &p, RunOut *out) {
       for (int call : calls)
         for (int fc = 1; fc < simfs::FC_N; fc++) {
           uint64_t n = base.calls[call][fc];
-          if (!n || fc == simfs::FC_INFO) continue;
+          if (!n || (fc == simfs::FC_INFO && !p.geti("default_log", 0))) continue;
           std::set<int> ords;
           if (n <= 4) for (uint64_t i = 0; i < n; i++) ords.insert((int)i);
           else { ords.insert(0); ords.insert((int)n - 1); ords.insert((int)r.below(n)); ords.insert((int)r.below(n)); }
